@@ -189,6 +189,12 @@ def prepare_ops(spec, dev, tmp):
                 with open(p, 'wb') as f:
                     f.write(data)
                 a['local'] = p
+            elif src == 'fifo':
+                # a named pipe: a perfectly good local "file" whose st_size is 0 whatever comes through it
+                p = os.path.join(tmp, 'src%d.fifo' % i)
+                os.mkfifo(p)
+                a['local'] = p
+                a['fifo'] = True
             elif src == 'bytesio':
                 a['local'] = None
             elif src == 'dir':
@@ -272,7 +278,7 @@ def run(spec, mode='sync', rec=None, chooser=None, keep_session=False, **core_kw
     rr = RunResult()
     dev = build_device(spec, rec, chooser)
     tmp = tempfile.mkdtemp(prefix='scen-', dir=os.path.join(os.path.dirname(os.path.dirname(os.path.abspath(__file__))), '.work')) \
-        if any(op['api'] in ('push', 'pull') and (op.get('src') in ('path', 'dir') or op.get('dest') == 'path') for op in spec['ops']) else None
+        if any(op['api'] in ('push', 'pull') and (op.get('src') in ('path', 'dir', 'fifo') or op.get('dest') == 'path') for op in spec['ops']) else None
     try:
         args = prepare_ops(spec, dev, tmp)
         kw = dict(core_kw)
@@ -550,7 +556,7 @@ def run_op(s, op, a, tmp, i, rr):
     if api == 'push':
         src_kind = op.get('src', 'bytesio')
         if a.get('local'):
-            local = _local(a['local'], op.get('local_as', 'str')) if src_kind == 'path' else a['local']
+            local = _local(a['local'], op.get('local_as', 'str')) if src_kind in ('path', 'fifo') else a['local']
         elif op.get('src_short'):
             local = _ShortReads(a['data'], op['src_short'])
         else:
@@ -565,6 +571,19 @@ def run_op(s, op, a, tmp, i, rr):
             kw['st_mode'] = op['st_mode']
         if 'mtime' in op:
             kw['mtime'] = op['mtime']
+        feeder = None
+        if a.get('fifo'):
+            import threading
+
+            def feed(path=a['local'], data=a['data']):
+                try:
+                    with open(path, 'wb') as f:          # blocks until the library opens the pipe for reading
+                        for off in range(0, len(data), 30000):
+                            f.write(data[off:off + 30000])
+                except OSError:
+                    pass
+            feeder = threading.Thread(target=feed, daemon=True)
+            feeder.start()
         cwd0 = os.getcwd()
         if op.get('cwd') == 'inside':
             os.chdir(a['local'])
@@ -574,6 +593,20 @@ def run_op(s, op, a, tmp, i, rr):
             return s.call('push', local, P(a['dpath']) if src_kind != 'dir' else a['dpath'], progress_callback=cbf, _info=dict(i=i), **kw)
         finally:
             os.chdir(cwd0)
+            if feeder is not None:
+                if feeder.is_alive():
+                    # the library never opened (or stopped reading) the pipe: unblock the writer
+                    try:
+                        fd = os.open(a['local'], os.O_RDONLY | os.O_NONBLOCK)
+                        try:
+                            while os.read(fd, 65536):
+                                pass
+                        except OSError:
+                            pass
+                        os.close(fd)
+                    except OSError:
+                        pass
+                feeder.join(timeout=2)
     raise ValueError(api)
 
 
@@ -873,7 +906,7 @@ def sync_traces(rr, spec, inert=None, only=None):
             for w in svc.out:
                 tr.append(dict(ev='ptx', id=w['id'], bad=(w['id'] not in ('OKAY', 'FAIL', 'DATA', 'DONE', 'DENT', 'STAT'))))
         # the total a callback is told: the size of the source (push) resp. what the device's STAT reported (pull)
-        told = op['stat_size'] if (api == 'pull' and op.get('stat_size') is not None) else size
+        told = op['stat_size'] if (api == 'pull' and op.get('stat_size') is not None) else (0 if (api == 'push' and op.get('src') == 'fifo') else size)
         for (path, n, total) in rr.extra.get('cb', {}).get(i, []):
             # for a stream the caller has already read from, "the size" may be what is left or the whole buffer: both are accepted
             ok_tot = (total == told) or (api == 'push' and op.get('src_offset') and total == told + op['src_offset'])
